@@ -124,6 +124,9 @@ P('lat_agg_par', ['relation inp(i32, i32)', 'lattice best(i32, i32)', 'relation 
 P('timeout', [E2, 'relation path(i32, i32)'],
   ['path(x, y) <-- edge(x, y)', 'path(x, z) <-- edge(x, y), path(y, z)'], attrs=['generate_run_timeout'], tags=['timeout'],
   twin=('tc_lin', 'timeout'))
+both('timeout_multi', [E2, 'relation src(i32)', 'relation dst(i32)', 'relation sym(i32, i32)', 'relation path(i32, i32)', 'relation n(usize)', 'relation lone(i32)'],
+     ['src(x) <-- edge(x, _)', 'dst(y) <-- edge(_, y)', 'sym(x, y) <-- edge(x, y), edge(y, x)', 'path(x, y) <-- edge(x, y)', 'path(x, z) <-- edge(x, y), path(y, z)',
+      'n(c) <-- agg c = count() in src(_)', 'lone(x) <-- src(x), !dst(x)'], attrs=['generate_run_timeout'], tags=['timeout'])
 P('timeout_par', [E2, 'relation path(i32, i32)'],
   ['path(x, y) <-- edge(x, y)', 'path(x, z) <-- edge(x, y), path(y, z)'], macro='ascent_par', attrs=['generate_run_timeout'], tags=['timeout'],
   twin=('tc_lin_par', 'timeout'))
@@ -320,6 +323,24 @@ both('t_mach_core', MC,
       'r(w, z) <-- k(w), edge(w, w1), edge(w1, z)',
       'r(x, z) <-- edge(x, w1), edge(w1, y), p(y, w3), p(w3, z)',
       'r(w2, z) <-- k(w2), p(w2, wa), let wa2 = wa + 1, edge(wa2, z), p(z, wb), let wb2 = wb + 1, edge(wb2, w2)'], tags=['twin'])
+# include_source! next to re-declarations: the position of the included text decides which declaration is the last one
+SRC2 = 'ascent::ascent_source! { %s:\n      relation limit(i32) = vec![(3,)];\n      relation edge(i32, i32);\n      relation small(i32);\n      small(x) <-- edge(x, _), limit(l), if x < l;\n   }'
+for pos, body, pasted in (
+        ('redecl_after', ['include_source!(SRCNAME);', 'relation limit(i32) = vec![(5,)];', 'relation out(i32);', 'out(x) <-- small(x);'],
+         ['relation limit(i32) = vec![(3,)];', 'relation edge(i32, i32);', 'relation small(i32);', 'small(x) <-- edge(x, _), limit(l), if x < l;',
+          'relation limit(i32) = vec![(5,)];', 'relation out(i32);', 'out(x) <-- small(x);']),
+        ('redecl_before', ['relation limit(i32) = vec![(5,)];', 'include_source!(SRCNAME);', 'relation out(i32);', 'out(x) <-- small(x);'],
+         ['relation limit(i32) = vec![(5,)];', 'relation limit(i32) = vec![(3,)];', 'relation edge(i32, i32);', 'relation small(i32);',
+          'small(x) <-- edge(x, _), limit(l), if x < l;', 'relation out(i32);', 'out(x) <-- small(x);']),
+        ('redecl_around', ['relation limit(i32) = vec![(7,)];', 'relation out(i32);', 'include_source!(SRCNAME);', 'out(x) <-- small(x);', 'relation edge(i32, i32) = vec![(1, 2)];'],
+         ['relation limit(i32) = vec![(7,)];', 'relation out(i32);', 'relation limit(i32) = vec![(3,)];', 'relation edge(i32, i32);', 'relation small(i32);',
+          'small(x) <-- edge(x, _), limit(l), if x < l;', 'out(x) <-- small(x);', 'relation edge(i32, i32) = vec![(1, 2)];'])):
+    for mac in ('ascent',):      # vec![..] initialisers only type-check for the serial row store
+        sfx = pos
+        nm = 'src2_' + sfx
+        P('inc_' + sfx, [], [], macro=mac, pre=SRC2 % nm, body=['pub struct P;'] + [b.replace('SRCNAME', nm) for b in body], tags=['twin'],
+          twin=('inc_pasted_' + sfx, 'C'))
+        P('inc_pasted_' + sfx, [], [], macro=mac, body=['pub struct P;'] + pasted, tags=['twin'])
 # ---- S-level: permutations / renamings (both sides are translation-validated; their specs are equal as sets)
 both('t_perm_rules', [E2, 'relation path(i32, i32)'], ['path(x, z) <-- edge(x, y), path(y, z)', 'path(x, y) <-- edge(x, y)'],
      tags=['twin'], twin=('tc_lin', 'L'))
@@ -581,7 +602,8 @@ for _seed in range(101, 131):
     P('fam_rando_%03d' % _seed, _d, _r, macro=('ascent_par' if _seed % 4 == 0 else 'ascent'), tags=['family', 'rand'])
 for _seed in range(1, 61):
     _d, _r = _rand_program(_seed)
+    _attrs = ['generate_run_timeout'] if _seed % 4 == 1 else []
     if _seed % 3 == 0:
-        P('fam_rand_%02d' % _seed, _d, _r, macro='ascent_par', tags=['family', 'rand'])
+        P('fam_rand_%02d' % _seed, _d, _r, macro='ascent_par', attrs=_attrs, tags=['family', 'rand'] + (['timeout'] if _attrs else []))
     else:
-        P('fam_rand_%02d' % _seed, _d, _r, tags=['family', 'rand'])
+        P('fam_rand_%02d' % _seed, _d, _r, attrs=_attrs, tags=['family', 'rand'] + (['timeout'] if _attrs else []))
